@@ -69,6 +69,18 @@ theorem create_refines (cfg : DispCfg) (h : Int) (s s' : DispState) (m : MsgCrea
   · intro a d; rw [bal_sendCoins hb, coinsGet_totalOutput]
   · intro d; exact sup_sendCoins hb d
 
+/-- the judge's escrow clause for a create message follows from `create_refines`: Σ of the
+    message's own outputs is what the module account gains (distributor ≠ module account) -/
+theorem create_moves_exactly_outputs (cfg : DispCfg) (h : Int) (s s' : DispState) (m : MsgCreate) (hw : WF s)
+    (hne : m.distributor ≠ cfg.module) (hc : createDistribution cfg h s m = some s') (d : Denom) :
+    s'.bank.bal cfg.module d = s.bank.bal cfg.module d + outsTotal m.outputs d ∧
+    s'.bank.bal m.distributor d = s.bank.bal m.distributor d - outsTotal m.outputs d := by
+  obtain ⟨_, _, hb, _⟩ := create_refines cfg h s s' m hw hc
+  have hne' : ¬ cfg.module = m.distributor := fun e => hne e.symm
+  constructor
+  · rw [hb]; simp [hne']
+  · rw [hb]; simp [hne]
+
 /-- the distributor could pay: every output total was covered by its balance -/
 theorem create_needs_funds (cfg : DispCfg) (h : Int) (s s' : DispState) (m : MsgCreate)
     (hc : createDistribution cfg h s m = some s') :
